@@ -77,6 +77,8 @@ SITES = [
     # --- NC
     dict(id='nc-standard-deduction', kind='echo', line='nc_d-400_sa.nc_standard_deduction', official='NC_STD', selectors=[S],
          assume=[('i|1040.standard_deduction_exceptions', False)]),
+    dict(id='nc-use-tax-table', kind='table', line='nc_d-400_consumer_use_tax_wkst.estimate', official='NC_USE_TAX', selectors=[], amount='v|nc_d-400.14',
+         at_least_but_less_than=True, beyond_rate='0.000675'),
     dict(id='nc-child-deduction-table', kind='table', line='nc_d-400_child_deduction_wkst.4', official='NC_CHILD', selectors=[S], amount='v|nc_d-400_child_deduction_wkst.2'),
     dict(id='nc-rate', kind='coef', line='nc_d-400.15', official='NC_RATE', symbol='v|nc_d-400.14', floor_at_zero=True),   # D-401: "If North Carolina taxable income is zero or less, enter a zero on Line 15"
 ]
